@@ -752,8 +752,9 @@ impl Ctx {
         } else {
             // the random stages of these properties are cheap per case: the thorough tier spends minutes, not seconds, on them
             let scale = match self.prop.as_str() {
-                "C05" | "C08" | "C13" | "C14" | "C17" | "C20" => 8,
-                "C03" | "C04" | "C09" | "C18" | "C19" => 5,
+                "C05" | "C08" | "C13" | "C17" | "C20" => 8,
+                "C04" | "C09" | "C14" | "C18" | "C19" => 5,
+                "C03" => 3,
                 "C07" | "C15" | "C16" => 2,
                 _ => 1,
             };
